@@ -376,7 +376,9 @@ def audit_arith(ctx, bodies):
                     a, c = c, a
                 desc = "%s+%s" % (sc.term_str(a), sc.term_str(c))
                 key = site_key(b, "arith", "add:%s" % desc)
-                if c[0] is None and 0 <= c[1] <= 1 << 32 and a[0] is not None:
+                if a[0] is None and c[0] is None and 0 <= a[1] + c[1] < 1 << 31:
+                    ctx.ok(key, "sum of two small constants", b.where(blk.idx))
+                elif c[0] is None and 0 <= c[1] <= 1 << 32 and a[0] is not None:
                     # bounded by a slice length (<= isize::MAX) ...
                     lens = [k for k in bounds.keys_of(sc.facts_at(blk.idx)[0] + sc.res.extra_axioms + sc.pfacts) if k and k[0] == "len"]
                     bounded = False
@@ -594,13 +596,13 @@ def rule_io_and_exits(ctx):
             for side in (f, tr):
                 reach = set()
                 for x in side:
-                    reach |= b.reachable_from(x, include_start=True)
+                    reach |= b.threaded_reach(x)
                 if mir.EXIT in reach and not (reach & parse):
                     count_exits.append(blk.idx)
         if e[0] == "discr" and (expr_str(e[1]) == b.local_name(res_local) or (isinstance(e[1], tuple) and e[1][0] == "call" and str(e[1][1]).endswith("::read_line"))):
             for a in blk.term["arms"]:
                 if a[0] == 1:
-                    reach = b.reachable_from(a[1], include_start=True)
+                    reach = b.threaded_reach(a[1])
                     if mir.EXIT in reach and not (reach & parse):
                         err_exits.append(blk.idx)
     ctx.check(bool(count_exits), "%s:exit-on-end-of-input" % UCI_LOOP,
